@@ -1,7 +1,7 @@
 """Obligations for C01."""
 from oblib import ob
 
-BOUNDS = {"quick": "", "thorough": ""}
+BOUNDS = {'quick': 'Inside: every byte string of length 1-3 (all 256 values per byte) and every string of length 4 over Sigma24 = {}[]:,"\\/u019-+.eEantflsr space newline, for the 4 AllowInvalidUTF8 x AllowDuplicateNames settings, on Value.IsValid, a ReadToken loop and a ReadValue loop (buffer mode), compared with zzspec.ValidText / ScanStream (verdict, number of values, io.EOF only at a value boundary); the partition certificate (sum of path model counts = 256^n) is checked for the full-range obligations. Namespace switch: objects with 64 / 66 concrete distinct members (and 3 members after one 1100-byte name) followed by a member named \'a\'+2 symbolic bytes. Outside: longer inputs, the depth limit (C20), streaming mode (C05), Unmarshal-into-any (C03).', 'thorough': 'As quick with all byte strings of length <= 4, Sigma24 strings of length 5 and 6, and namespace objects with 63..70 members plus trailing members.'}
 ASSUMPTIONS = []
 
 
